@@ -188,6 +188,13 @@ def examples_strategy(draw, tier='quick', allow=lambda c: True,
                                              ('_<=>', '?_@^')]))
             xs.extend(['a' + r1 + 'b', 'c' + r2 + 'd'])
     if draw(st.integers(0, 19)) == 0:
+        # an example that is a prefix of others which go on with a run of
+        # one more character (optional trailing runs)
+        base = draw(st.sampled_from(['INV7', '1', 'ab', 'x-', 'Q9.']))
+        ch = draw(st.sampled_from(['0', 'c', '-', ' ', 'Z']))
+        xs.extend([base, base + ch * draw(st.integers(3, 5))]
+                  + ([base + ch] if draw(st.booleans()) else []))
+    if draw(st.integers(0, 19)) == 0:
         # expressions that end in a literal dollar, and strings extending
         # what they match
         xs.extend(draw(st.sampled_from([['US$', 'AU$', 'US$5', 'NZ$'],
